@@ -102,6 +102,29 @@ nps 100
 """
 
 
+# numbers of different kinds coincide everywhere: cell 5 / surface 5 / material 5 / transform 5 / universe 5 ...
+SMALL_COINCIDE = """coinciding numbers
+5 5 -1.0 -5 6 imp:n=1 fill=5 (5) trcl=5
+6 6 -2.0 5 -6 #5 imp:n=1 fill=6 ( 6 )
+7 0 -7 imp:n=1 fill=6 (5)
+8 0 -5 imp:n=1 u=5
+9 0 -6 imp:n=1 u=6
+10 0 7 imp:n=0 lat=1 fill=0:1 0:0 0:0 5 6 (6)
+
+5 5 pz 1
+6 -7 pz 2
+7 -6 pz 9
+
+m5 1001.80c 1.0
+mt5 lwtr.23t
+m6 8016.80c 1.0
+tr5 1 2 3
+tr6 4 5 6
+mode n
+nps 100
+"""
+
+
 def _move_mt(text, rng):
     """MT cards may stand anywhere in the data block (plain layout: one card per line unless continued by 5 blanks)"""
     lines = text.split("\n")
@@ -208,7 +231,9 @@ def run(chk):
         "periodic pairs, universes/fills incl. fill transforms, complements, MT cards, per-cell data in either block; plain and "
         "random layouts), MontePy's own fixtures, three hand-written problems with all nine reference sites, and the corpus; "
         "histories are single assignments, shifts, shift of everything, permutations through temporaries, swaps through a temporary, "
-        "renumber-then-restore, rejected assignments (number in use, 0, negative) and one number migrating through all kinds, over "
+        "renumber-then-restore, rotations inside a kind, rejected assignments (number in use, 0, negative), one number migrating through "
+        "all kinds, and 'coincide' (an object whose number is also carried by another kind is renumbered / swapped / rotated while the "
+        "other kind keeps the number; every third generated problem draws the numbers of all kinds from one small pool), over "
         "cells, surfaces, materials, transforms and universes. Non-trivial = at least one assignment was accepted and the problem "
         "has at least one modelled reference; distinct = distinct (text, history)."
     )
@@ -230,7 +255,8 @@ def run(chk):
     drv = leanio.Driver(chk, "drv_c04")
 
     # ------------------------------------------------------------------ texts
-    texts = [("small:all-sites", SMALL, 128), ("small:data-block", SMALL_DATA, 128), ("small:lattice", SMALL_LAT, 128)]
+    texts = [("small:all-sites", SMALL, 128), ("small:data-block", SMALL_DATA, 128), ("small:lattice", SMALL_LAT, 128),
+             ("small:coincide", SMALL_COINCIDE, 128)]
     from vlib.wholefile import fixtures, ascii_clean
 
     for name, t in fixtures():
@@ -243,6 +269,11 @@ def run(chk):
             feats -= {"data_placement"}
         if i % 4 == 1:
             feats |= {"lattice"}
+        if i % 3 == 2:
+            # one small pool for the numbers of all kinds: fill=5 (5), `5 5 -1.0 -5 u=5`, matrix entry == transform number ...
+            feats |= {"shared_numbers", "trcl"}
+            if i % 2:
+                feats |= {"lattice"}
         gp = genprob.generate(rng, features=feats)
         limit = 80 if i % 5 == 0 else 128
         style = "random" if i % 2 else "plain"
@@ -286,13 +317,14 @@ def run(chk):
             case_den0.append(d0)
     nrandom = len(cases) - ncorpus
     exh = []
-    for ti in (0, 1, 2):
+    for ti in (0, 1, 2, 3):
         if ti in nf_of:
             kinds = ["cell", "surf", "mat", "tr", "univ"]
             exh += list(_exhaustive(texts[ti][1], nf_of[ti], chk.pick(1, 2), [k for k in kinds if c04lib.own_numbers(nf_of[ti])[k]]))
     if not chk.thorough:
         # quick: all single assignments, and all pairs inside one kind for the all-sites problem's cells and universes
         exh += [c for c in _exhaustive(SMALL, nf_of[0], 2, ["univ", "tr"]) if len(c["ops"]) == 2]
+        exh += [c for c in _exhaustive(SMALL_COINCIDE, nf_of[3], 2, ["univ", "tr"]) if len(c["ops"]) == 2]
     for c in exh:
         cases.append(c)
         origin.append("exhaustive")
@@ -389,6 +421,10 @@ def run(chk):
                 chk.count("site:" + name)
             chk.count("site:mt-card", sum(1 for m in nf0s[i]["mats"] if m["mt"] is not None))
             chk.count("site:fill-matrix-entry", sum(len(x["fill"]) for x in nf0s[i]["cells"] if len(x["fill"]) > 1))
+            # coincidences between independent number spaces (what a by-value search in the code would trip over)
+            chk.count("coincide:fill-universe==fill-transform", sum(1 for x in nf0s[i]["cells"] if x["fillTr"] is not None and x["fillTr"] in x["fill"]))
+            own = c04lib.own_numbers(nf0s[i])
+            chk.count("coincide:numbers-shared-by-two-kinds", sum(1 for n in set().union(*map(set, own.values())) if sum(1 for k in own if n in own[k]) >= 2))
         chk.note_case({"text": c["text"], "ops": c["ops"]}, accepted > 0 and nsites > 0, sample_every=400)
         verdict = c04lib.judge(c, r, d0, db, d1)
         if verdict is not None:
@@ -398,6 +434,7 @@ def run(chk):
                 chk.count("flaky:violation-not-reproduced")
         if verdict is not None:
             sig, what = verdict
+            chk.count("violation-origin:" + origin[i])
             # minimise the first case of every signature only (all cases fail when a reference site is broken)
             seen = canon(sig) in {v["key"] for v in chk.violations} or any(
                 all(sig.get(k) == v for k, v in f["signature"].items()) for f in chk.known)
